@@ -236,6 +236,27 @@ func c17Int64Family(tier string) []Operand {
 		out = append(out, j.Op())
 	}
 	out = append(out, Dense(3, 4)...)
+	out = append(out, c17WordFamily()...)
+	return out
+}
+
+// c17WordFamily: coefficients at the 63/64-bit and 10^18..10^20 boundaries (no trailing zeros
+// added) at every exponent from -40 to +3: the value is a fraction, a small integer plus a
+// fraction, or just beyond int64, with a coefficient that fills one machine word.
+func c17WordFamily() []Operand {
+	var out []Operand
+	var cs []*big.Int
+	for _, b := range []*big.Int{pow2(62), pow2(63), pow2(64), ref.Pow10(18), ref.Pow10(19), ref.Pow10(20),
+		new(big.Int).Mod(ref.Pow10(20), pow2(64)), new(big.Int).Mod(ref.Pow10(21), pow2(64)), new(big.Int).Mul(big.NewInt(5), ref.Pow10(18))} {
+		for d := int64(-2); d <= 2; d++ {
+			cs = append(cs, new(big.Int).Add(b, big.NewInt(d)))
+		}
+	}
+	for _, c := range cs {
+		for ex := int32(-40); ex <= 3; ex++ {
+			out = append(out, FinBig(c, ex, false), FinBig(c, ex, true))
+		}
+	}
 	return out
 }
 
@@ -386,6 +407,7 @@ func c17Run(e *core.Env) {
 	}
 	k, w := 3, 6
 	mf := append(Dense(k, w), Edge(EdgeExps)...)
+	mf = append(mf, c17WordFamily()...)
 	for i := range mf {
 		if !e.Mine(int64(i)) {
 			continue
@@ -434,7 +456,7 @@ func init() {
 		Title: "Integer and float conversions and Modf are exact",
 		Rule:  "Int64 on the int64-boundary family (floor(2^63/10^k)+-2 x trailing zeros x crossing exponents x signs) against exact rationals; constructors on the int64 boundary set x exponents; Float64 on exact float values, midpoints between adjacent floats and +-1 unit perturbations against big.Rat nearest-even; Modf on DENSE+EDGE x {both outputs, integ nil, frac nil} against exact truncation",
 		Bounds: func(tier string) string {
-			return fmt.Sprintf("Int64 family %d values; constructors 2020 ints x 8 exponents x 4 constructors; Float64 family %d decimals (every %s binary exponent x mantissa patterns: exact value, +-1 in an extra digit, midpoint to the next float +-1, 17-19 digit perturbations, overflow/underflow thresholds); Modf: DENSE(3,6)+EDGE x 3 output modes", len(c17Int64Family(tier)), len(c17FloatFamily(tier)), map[bool]string{true: "8th", false: "64th"}[tier == "thorough"])
+			return fmt.Sprintf("Int64 family %d values (incl. WORD: 2^62/2^63/2^64/10^18/10^19/10^20 +-2 at every exponent -40..3); constructors 2020 ints x 8 exponents x 4 constructors; Float64 family %d decimals (every %s binary exponent x mantissa patterns: exact value, +-1 in an extra digit, midpoint to the next float +-1, 17-19 digit perturbations, overflow/underflow thresholds); Modf: DENSE(3,6)+EDGE+WORD x 3 output modes", len(c17Int64Family(tier)), len(c17FloatFamily(tier)), map[bool]string{true: "8th", false: "64th"}[tier == "thorough"])
 		},
 		Run:    c17Run,
 		Replay: c17Replay,
